@@ -247,9 +247,56 @@ CORRS.append(
          describe="hypotheses valF1/instF1 of the C01 theorems on real instances vs the oracle's description of the excluded regions")
 )
 
+# ------------------------------------------------------------------ fragments F2… (Bind/FN.lean, Props/C01Wide.lean)
+import c01_wide as W  # noqa: E402
+
+
+def gen_wide(rng, tier):
+    """universes of F1 + nillable + tokens + wrapper + sequence + Attributes maps + init=False fields + subclass instances; instances as generated and with strings
+    pushed into the excluded regions"""
+    for desc, value in W.CORPUS:
+        u = B.Universe(desc)
+        _UNIS[u.modname] = u
+        yield {"ctx": u.export_ctx(), "value": value, "clazz": "Root", "desc": desc, "_uni": u.modname, "feat": W.FEAT}
+    for _ in range(n_cases(tier, 120, 3000)):
+        u, desc, ctx = new_universe(rng, W.WIDE_FEATURES)
+        for _ in range(5):
+            try:
+                obj = G.gen_instance(rng, u, "Root")
+            except Exception:  # noqa: BLE001
+                continue
+            val = u.to_val(obj)
+            if rng.random() < 0.3:
+                val = W.spoil(rng, val)
+            yield {"ctx": ctx, "value": val, "clazz": "Root", "desc": desc, "_uni": u.modname, "feat": W.FEAT,
+                   "ignore_default_attributes": rng.random() < 0.3}
+
+
+def impl_valFN(a):
+    """`ctxOK` / `valOK` of Bind/FN.lean against the independent description of the excluded regions"""
+    return {"ok": {"ctx": W.ctx_expected(a["ctx"], ns_agree_everywhere), "val": not W.regions(a["desc"], a["value"], a["ctx"])}}
+
+
+CORRS.append(
+    Corr("c01.valFN", gen_wide, impl_valFN, classify=lambda a, o: json.dumps(o.get("ok"), sort_keys=True),
+         describe="hypotheses ctxOK/valOK of bind_generate_F2..F7 on exported real universes and instances vs the oracle's "
+                  "description of the excluded regions")
+)
+
+
+def covered_wide(a, msg):
+    if not W.ctx_expected(a["ctx"], ns_agree_everywhere):
+        if not ns_agree_everywhere(a["ctx"]):
+            return "C01-ns-chain"
+        return "C01-nillable-token-lists-empty / C01-tokens-in-sequence-typeerror / text var with child elements (excluded universes)"
+    r = W.regions(a["desc"], a["value"], a["ctx"])
+    return r[0] if r else None
+
+
 ORACLES = [
     Oracle("roundtrip", gen_oracle, oracle_roundtrip, covered=covered_oracle,
            from_ops=("bind.roundtrip", "bind.generate"), adapt=adapt_oracle, adapt_disagreement=adapt_disagreement),
+    Oracle("roundtrip-wide", gen_wide, oracle_roundtrip, covered=covered_wide),
 ]
 
 
@@ -270,6 +317,7 @@ FINDINGS = {
     "C01-empty-str-element-default": lambda: _replay(EMPTY_STR_DESC, EMPTY_STR_VALUE, lambda x: '"ed"' in x),
     "C01-attr-datatype-clark-name": lambda: _replay(ATTR_DT_DESC, ATTR_DT_VALUE, lambda x: "xs:string" in x),
     "C01-ns-chain": lambda: _replay(CHAIN_DESC, CHAIN_VALUE, lambda x: x == "ParserError"),
+    **W.FINDINGS,
 }
 TRUSTED = [
     "metadata (XmlMeta/XmlVar) is exported from the real XmlContext.build and is an input of the model (builders.py is not modelled here)",
